@@ -8,8 +8,11 @@ if [ -n "$(git status --porcelain --untracked-files=no)" ]; then echo "/repo not
 git apply "$PATCH" || { echo "patch does not apply"; exit 2; }
 trap 'git -C /repo checkout -- . >/dev/null 2>&1' EXIT
 for ID in "$@"; do
+  # the evidence file of the property must keep describing the unchanged tree
+  cp /verif/evidence/$ID.json /verif/.seedtest-evidence-$ID.json 2>/dev/null
   out=$(cd /verif && VERIF_SEED=${VERIF_SEED:-1} ./check "$ID" ${TIER:-quick} 2>&1)
   rc=$?
+  mv /verif/.seedtest-evidence-$ID.json /verif/evidence/$ID.json 2>/dev/null
   v=$(echo "$out" | grep -m1 "^VIOLATION" | cut -c1-160)
   s=$(echo "$out" | grep -m3 "^  sig=" | cut -c1-200 | tr '\n' ';')
   last=$(echo "$out" | tail -1 | cut -c1-200)
